@@ -203,6 +203,14 @@ func attempt(r *hx.Rng, period time.Duration, users, uses int, target string, ph
 	default:
 		return "Use(1) on a closed limiter was queued"
 	}
+	select {
+	case err := <-lims[tgt].l.Use(0):
+		if classify(err) != "err-closed" {
+			return "Use(0) on a closed limiter answered " + classify(err)
+		}
+	default:
+		return "Use(0) on a closed limiter was queued"
+	}
 	if lims[tgt].l.New(1) != nil {
 		return "New on a closed limiter returned a limiter"
 	}
@@ -223,7 +231,7 @@ func attempt(r *hx.Rng, period time.Duration, users, uses int, target string, ph
 		switch {
 		case q.amt < 0 && got != "err-neg":
 			return fmt.Sprintf("Use(%d) answered %s", q.amt, got)
-		case q.amt == 0 && got != "nil":
+		case q.amt == 0 && got != "nil" && got != "err-closed":
 			return fmt.Sprintf("Use(0) answered %s", got)
 		case q.amt > lims[q.lim].cap && got != "err-cap" && got != "err-closed":
 			return fmt.Sprintf("Use(%d) on a limiter of capacity %d answered %s", q.amt, lims[q.lim].cap, got)
